@@ -619,4 +619,22 @@ theorem validText_sound (o : VOpts) (b : Bytes) (n : Nat) (h : validText o b = (
     · rw [← htake, List.take_append_drop]
   · simp at h
 
+/-- a number starts with `-` or a digit: the byte class `'0'` of `Kind.normalize` -/
+theorem jnumber_head (v : Bytes) (h : JNumber v) : ∃ c t, v = c :: t ∧ normKind c = 0x30 := by
+  have hk : ∀ c : UInt8, (c == 0x2D || isDigit c) = true → normKind c = 0x30 := by
+    intro c hc; simp [normKind, hc]
+  cases h with
+  | mk minus int frac exp hm hi hf hx =>
+    rcases hm with rfl | rfl
+    · cases hi with
+      | zero => exact ⟨0x30, frac ++ exp, by simp, by decide⟩
+      | nonzero d ds hd hds =>
+        refine ⟨d, ds ++ (frac ++ exp), by simp, hk d ?_⟩
+        have := (digit19_iff d).1 hd
+        rw [cls_d19] at this
+        rw [cls_minus, cls_digit]
+        generalize cls d = k at this
+        cases k <;> simp_all
+    · exact ⟨0x2D, int ++ (frac ++ exp), by simp, by decide⟩
+
 end JsonV.Lemmas.WireValue
